@@ -24,6 +24,7 @@ RULE = (
     "configuration class, every single-entry perturbation (each array x each position x {+100, +1e-6}) of the "
     "computed stock handed to check_stock_balance. Non-trivial = grid is not the unit grid or driver is not "
     "all-zero. Distinct by construction."
+    " Also: whole-number flows in integer arrays, sub-annual float grids, perturbations sized at the one-unit threshold (also at magnitudes of 1e9), small surviving shares judged relative to flow size, a flow-driven stock recomputed after its flows were balanced."
 )
 ASSUMPTIONS = [
     "identities hold to ~4e-15 relative on the unchanged code (calibrated); tolerance 1e-10 relative to max(|stock|, |flow| x dt)",
